@@ -288,10 +288,11 @@ func Produce[T any](e *Env, name string, ch chan T, items []T, pp ProducerPlan) 
 
 // Call is one invocation of a user function.
 type Call struct {
-	Arg  int
-	Task int
-	Seq  int
-	VT   time.Duration
+	Arg    int
+	Task   int
+	Seq    int
+	VT     time.Duration
+	EndSeq int // 0: still running
 }
 
 // Calls records user-function invocations.
@@ -330,6 +331,16 @@ func (e *Env) Enter(c *Calls, arg int) int {
 		simrt.Sleep("fn.stall", ms(d))
 	}
 	return idx
+}
+
+// Leave marks the end of user-function call idx.
+func (e *Env) Leave(c *Calls, idx int) {
+	if idx >= 0 && idx < len(c.List) && !simrt.Free() {
+		c.List[idx].EndSeq = e.S.Seq
+		if c.List[idx].EndSeq == 0 {
+			c.List[idx].EndSeq = 1
+		}
+	}
 }
 
 // LibTasksAlive lists library tasks that have not exited, with their sites.
